@@ -5,7 +5,7 @@ from sa.cfg import BranchFacts
 from sa.flow import arg_nodes
 
 UNITS = ["lib/BuildSystem/ExternalCommand.cpp", "lib/BuildSystem/BuildSystem.cpp", "lib/BuildSystem/ShellCommand.cpp",
-         "lib/Commands/BuildSystemCommand.cpp", "products/libllbuild/BuildSystem-C-API.cpp"]
+         "lib/Commands/BuildSystemCommand.cpp", "products/libllbuild/BuildSystem-C-API.cpp", "lib/BuildSystem/BuildSystemFrontend.cpp"]
 THOROUGH_ALL_UNITS = False
 EXPLANATION = (
     "Sibling cross-check of every Command::getResultForOutput override: failed, propagated-failure and cancelled values map to "
@@ -217,7 +217,7 @@ def run(ctx):
                                  any((not p) and a == "value.isMissingInput()" for a, p in (bf.at_node(x) or frozenset())) for x in trues)
         r.check(ok, "%s::isResultValid" % t, "", "a failed or missing input can be considered up to date", f)
 
-    r = rep.rule("R-FAIL-REPORT", "a failed command result reaches hadCommandFailure before the task completes", floor=1)
+    r = rep.rule("R-FAIL-REPORT", "a failed command result reaches hadCommandFailure before the task completes; the frontend counts it, resets the count only at build start, answers build() from the counts, and the command line tool turns a failed build into a non-zero exit", floor=6)
     ct = prog.fn("CommandTask::inputsAvailable")
     found = False
     for l in prog.lambdas_of(ct):
@@ -229,6 +229,50 @@ def run(ctx):
             if found:
                 break
     r.check(found, "CommandTask|failure-reported-before-complete", "", "a failed command completes without hadCommandFailure", ct)
+    # the frontend counts the failure, resets the count only when a build starts, and both build() flavours answer from the counts
+    FE = "lib/BuildSystem/BuildSystemFrontend.cpp"
+    hcf = [f for f in prog.functions.values() if relpath(f.file) == FE and f.name.endswith("BuildSystemFrontendDelegate::hadCommandFailure")]
+    def is_inc(n):
+        return n is not None and "numFailedCommands" in expr_str(n) and (
+            (n.get("k") == "un" and "++" in n.get("op", "")) or (n.get("k") == "call" and ((n.get("fn") or "").endswith("operator++") or (n.get("fn") or "").endswith("fetch_add"))) or
+            (n.get("k") in ("bin", "call") and n.get("op") == "+="))
+    ok = len(hcf) == 1 and cfg.must_pass_through(hcf[0], cfg.entry_pos(hcf[0]), lambda p, e: is_inc(cfg.elem_node(hcf[0], e)))[0]
+    r.check(ok, "hadCommandFailure|counts", "", "hadCommandFailure does not unconditionally increment the failed-command count", hcf[0] if hcf else None)
+    getter = [f for f in prog.functions.values() if relpath(f.file) == FE and f.name.endswith("BuildSystemFrontendDelegate::getNumFailedCommands")]
+    okg = len(getter) == 1 and any(x.get("k") == "return" and "numFailedCommands" in expr_str(x) for x in getter[0].nodes)
+    r.check(okg, "getNumFailedCommands|returns-count", "", "getNumFailedCommands does not return the count", getter[0] if getter else None)
+    writers = []
+    for f in prog.functions.values():
+        if relpath(f.file) != FE:
+            continue
+        for n in f.nodes:
+            if n.get("k") in ("bin", "call") and n.get("op") == "=" and "numFailedCommands" in expr_str(n.child("l") if n.get("k") == "bin" else n.child("obj")):
+                writers.append(f.name.split("::")[-1])
+    r.check(sorted(set(writers)) in (["initialize"], ["resetForBuild"], ["initialize", "resetForBuild"]) or len(set(writers)) == 1, "numFailedCommands|reset-only-at-build-start",
+            "%s" % sorted(set(writers)), "the failed-command count is reset in %s" % sorted(set(writers)))
+    builds = [f for f in prog.functions.values() if relpath(f.file) == FE and not f.is_lambda and f.name.endswith("BuildSystemFrontendImpl::build")]
+    n_b = 0
+    for f in builds:
+        rets = [x for x in f.nodes if x.get("k") == "return"]
+        last = [x for x in rets if "getNumFailedCommands" in expr_str(x)]
+        others = [x for x in rets if x not in last]
+        okb = len(last) == 1 and "getNumFailedCommands() == 0" in expr_plain(last[0].child("e")).replace("delegate.", "") and "getNumErrors() == 0" in expr_plain(last[0].child("e")).replace("delegate.", "") and \
+            "||" not in expr_plain(last[0].child("e")) and all(core(x.child("e")).get("v") is False for x in others)
+        n_b += 1
+        r.check(okb, "frontend build(%s)|success-needs-zero-failures" % (f.params[0]["n"] if f.params else ""), "",
+                "BuildSystemFrontend::build can return true although a command failed or an error was reported", f)
+    if n_b < 1:
+        raise AnalysisBroken("BuildSystemFrontendImpl::build not found")
+    cli = [f for f in prog.functions.values() if relpath(f.file) == "lib/Commands/BuildSystemCommand.cpp" and not f.is_lambda and any(
+        (c.get("fn") or "").endswith("BuildSystemFrontend::build") for c in f.calls())]
+    okc = False
+    for f in cli:
+        bf_ = BranchFacts(f, kill="assign")
+        for x in f.nodes:
+            if x.get("k") == "return" and core(x.child("e")).get("k") == "int" and core(x.child("e")).get("v") != 0 and \
+                    any((not p) and "frontend.build" in a for a, p in (bf_.at_node(x) or frozenset())):
+                okc = True
+    r.check(okc, "llbuild buildsystem build|non-zero-exit-on-failure", "", "the command line tool does not exit non-zero when BuildSystemFrontend::build fails", cli[0] if cli else None)
 
 
 def nth(f, n):
@@ -238,6 +282,14 @@ def nth(f, n):
 
 
 VARIANTS = [
+    dict(name="frontend-ignores-failed-commands", file="lib/BuildSystem/BuildSystemFrontend.cpp",
+         old="    return !cancelled && delegate.getNumFailedCommands() == 0\n        && delegate.getNumErrors() == 0;", new="    return !cancelled && delegate.getNumErrors() == 0;",
+         expect=("R-FAIL-REPORT", "success-needs-zero-failures")),
+    dict(name="failure-counted-only-when-not-cancelled", file="lib/BuildSystem/BuildSystemFrontend.cpp",
+         old="  // Increment the failed command count.\n  ++impl->numFailedCommands;", new="  // Increment the failed command count.\n  if (impl->numErrors == 0) ++impl->numFailedCommands;",
+         expect=("R-FAIL-REPORT", "hadCommandFailure|counts")),
+    dict(name="cli-exits-zero-on-failed-build", file="lib/Commands/BuildSystemCommand.cpp", old="                     \" command failures\");\n    }\n\n    return 1;", new="                     \" command failures\");\n    }\n\n    return 0;",
+         expect=("R-FAIL-REPORT", "non-zero-exit-on-failure")),
     dict(name="prior-failure-enables-shortcut", file="lib/BuildSystem/ExternalCommand.cpp", old="  if (value.isSuccessfulCommand()) {\n    hasPriorResult = true;",
          new="  if (!value.isInvalid()) {\n    hasPriorResult = true;", expect=("R-PRIOR-SUCCESS-ONLY", "prior-result-only-if-successful")),
     dict(name="symlink-cancelled-not-failed-input", file="lib/BuildSystem/BuildSystem.cpp",
